@@ -59,6 +59,8 @@ type c13Case struct {
 	Via      string `json:"via"`      // client: request | invoke
 	Extra    string `json:"extra"`    // http raw: "cl+chunked" sends both headers
 	Repo     string `json:"repo"`     // sites
+	Method   string `json:"method"`   // http raw: request method (default POST)
+	Late     bool   `json:"late"`     // MaxRequestLength is set only after Bind (the server is bound with the default limit)
 }
 
 type site struct {
@@ -69,6 +71,10 @@ type site struct {
 	Rhs      string `json:"rhs"`
 	Before   bool   `json:"before_dispatch"` // the comparison precedes the first Handle/run/task call
 	Dispatch bool   `json:"has_dispatch"`
+	// path condition under which the comparison is evaluated: conditions of the enclosing if / else / case
+	// arms (negated for else arms and for the earlier cases of a switch) and the other conjuncts of its own
+	// condition, as source text
+	Guards []string `json:"guards"`
 }
 
 type c13Obs struct {
@@ -145,20 +151,37 @@ func init() {
 	rpchttp.RegisterTransport()
 }
 
-func getServer(t string, limit int) (*srv, error) {
+func getServer(t string, limit int, late bool) (*srv, error) {
 	key := t + "/" + strconv.Itoa(limit)
+	if late {
+		key += "/late"
+	}
 	if s, ok := servers[key]; ok {
 		return s, nil
 	}
 	s := &srv{t: t, limit: limit}
 	s.service = rpc.NewService()
-	s.service.MaxRequestLength = limit
+	if !late {
+		s.service.MaxRequestLength = limit
+	}
+	defer func() {
+		if late {
+			// the limit is configured (lowered from the default) after the service has been bound and its
+			// receive loops are running
+			time.Sleep(30 * time.Millisecond)
+			s.service.MaxRequestLength = limit
+			time.Sleep(5 * time.Millisecond)
+		}
+	}()
 	s.service.Use(core.IOHandler(s.ioPlugin))
 	s.service.AddFunction(s.echo, "echo")
 	s.service.AddFunction(s.echo, "echoo")
 	switch t {
 	case "mock":
 		name := "hv-c13-" + strconv.Itoa(limit)
+		if late {
+			name += "-late"
+		}
 		if err := s.service.Bind(mock.Server{Address: name}); err != nil {
 			return nil, err
 		}
@@ -182,7 +205,7 @@ func getServer(t string, limit int) (*srv, error) {
 			}
 			tmpDir = d
 		}
-		path := filepath.Join(tmpDir, fmt.Sprintf("s%d.sock", limit))
+		path := filepath.Join(tmpDir, fmt.Sprintf("s%d%v.sock", limit, late))
 		ln, err := net.Listen("unix", path)
 		if err != nil {
 			return nil, err
@@ -311,7 +334,7 @@ func short(b []byte) string {
 // ---------------------------------------------------------------- real clients (truthful declarations)
 
 func opClient(c *c13Case, o *c13Obs) {
-	s, err := getServer(c.T, c.Limit)
+	s, err := getServer(c.T, c.Limit, c.Late)
 	if err != nil {
 		o.Env = err.Error()
 		return
@@ -404,7 +427,7 @@ func writeAll(conn net.Conn, data []byte, pieces int) error {
 
 // tcp / unix: the 12-byte header comes from the case, the body bytes from makeBody
 func opRawStream(c *c13Case, o *c13Obs) {
-	s, err := getServer(c.T, c.Limit)
+	s, err := getServer(c.T, c.Limit, c.Late)
 	if err != nil {
 		o.Env = err.Error()
 		return
@@ -468,7 +491,7 @@ func opRawStream(c *c13Case, o *c13Obs) {
 }
 
 func opRawUDP(c *c13Case, o *c13Obs) {
-	s, err := getServer(c.T, c.Limit)
+	s, err := getServer(c.T, c.Limit, c.Late)
 	if err != nil {
 		o.Env = err.Error()
 		return
@@ -533,7 +556,7 @@ func wsFrame(fin bool, opcode byte, declared int, payload []byte) []byte {
 }
 
 func opRawWS(c *c13Case, o *c13Obs) {
-	s, err := getServer(c.T, c.Limit)
+	s, err := getServer(c.T, c.Limit, c.Late)
 	if err != nil {
 		o.Env = err.Error()
 		return
@@ -594,7 +617,7 @@ func opRawWS(c *c13Case, o *c13Obs) {
 
 // net/http and fasthttp servers: the request is written by hand
 func opRawHTTP(c *c13Case, o *c13Obs) {
-	s, err := getServer(c.T, c.Limit)
+	s, err := getServer(c.T, c.Limit, c.Late)
 	if err != nil {
 		o.Env = err.Error()
 		return
@@ -608,7 +631,11 @@ func opRawHTTP(c *c13Case, o *c13Obs) {
 	body, valid, _, k := makeBody(c.Actual)
 	o.Valid, o.ArgLen, o.Sent = valid, k, len(body)
 	var req bytes.Buffer
-	req.WriteString("POST / HTTP/1.1\r\nHost: " + s.addr + "\r\nContent-Type: application/octet-stream\r\n")
+	method := c.Method
+	if method == "" {
+		method = "POST"
+	}
+	req.WriteString(method + " / HTTP/1.1\r\nHost: " + s.addr + "\r\nContent-Type: application/octet-stream\r\n")
 	chunked := func() {
 		// three chunks (fewer when the body is tiny), then the terminating one
 		n := len(body)
@@ -677,6 +704,168 @@ func exprText(fset *token.FileSet, e ast.Expr) string {
 	return strings.Join(strings.Fields(b.String()), "")
 }
 
+type siteWalker struct {
+	fset     *token.FileSet
+	file     string
+	cmps     []site
+	pos      []token.Pos
+	dispatch token.Pos
+}
+
+func isLimitCmp(file, l, r string, op token.Token) bool {
+	switch op {
+	case token.GTR, token.GEQ, token.LSS, token.LEQ, token.EQL, token.NEQ:
+	default:
+		return false
+	}
+	if strings.Contains(l, "MaxRequestLength") || strings.Contains(r, "MaxRequestLength") {
+		return true
+	}
+	// the datagram consistency test: declared length against received bytes
+	return file == "rpc/udp/handler.go" && ((l == "length" && r == "n-8") || (l == "n-8" && r == "length"))
+}
+
+func splitOp(e ast.Expr, op token.Token) []ast.Expr {
+	for {
+		p, ok := e.(*ast.ParenExpr)
+		if !ok {
+			break
+		}
+		e = p.X
+	}
+	if b, ok := e.(*ast.BinaryExpr); ok && b.Op == op {
+		return append(splitOp(b.X, op), splitOp(b.Y, op)...)
+	}
+	return []ast.Expr{e}
+}
+
+// cond: a boolean condition evaluated under guards.  Comparisons with the limit that are conjuncts of it
+// are evaluated only when the conjuncts before them hold; those inside a disjunct carry no extra guard.
+func (w *siteWalker) cond(e ast.Expr, guards []string) {
+	if e == nil {
+		return
+	}
+	conj := splitOp(e, token.LAND)
+	for k, c := range conj {
+		g := append([]string{}, guards...)
+		for m, other := range conj {
+			if m != k {
+				g = append(g, exprText(w.fset, other))
+			}
+		}
+		for _, d := range splitOp(c, token.LOR) {
+			w.expr(d, g)
+		}
+	}
+}
+
+func (w *siteWalker) expr(e ast.Expr, guards []string) {
+	ast.Inspect(e, func(n ast.Node) bool {
+		switch x := n.(type) {
+		case *ast.FuncLit:
+			w.stmt(x.Body, guards)
+			return false
+		case *ast.BinaryExpr:
+			l, r := exprText(w.fset, x.X), exprText(w.fset, x.Y)
+			if isLimitCmp(w.file, l, r, x.Op) {
+				w.cmps = append(w.cmps, site{File: w.file, Lhs: l, Op: x.Op.String(), Rhs: r, Guards: append([]string{}, guards...)})
+				w.pos = append(w.pos, x.Pos())
+				return false
+			}
+		case *ast.CallExpr:
+			if sel, ok := x.Fun.(*ast.SelectorExpr); ok {
+				switch sel.Sel.Name {
+				case "Handle", "run", "task":
+					if w.dispatch == token.NoPos || x.Pos() < w.dispatch {
+						w.dispatch = x.Pos()
+					}
+				}
+			}
+		}
+		return true
+	})
+}
+
+func (w *siteWalker) stmt(st ast.Stmt, guards []string) {
+	switch x := st.(type) {
+	case nil:
+	case *ast.BlockStmt:
+		if x == nil {
+			return
+		}
+		for _, s := range x.List {
+			w.stmt(s, guards)
+		}
+	case *ast.IfStmt:
+		w.stmt(x.Init, guards)
+		w.cond(x.Cond, guards)
+		c := exprText(w.fset, x.Cond)
+		w.stmt(x.Body, append(append([]string{}, guards...), c))
+		if x.Else != nil {
+			w.stmt(x.Else, append(append([]string{}, guards...), "!("+c+")"))
+		}
+	case *ast.SwitchStmt:
+		w.stmt(x.Init, guards)
+		if x.Tag != nil {
+			w.expr(x.Tag, guards)
+		}
+		g := append([]string{}, guards...)
+		for _, cc := range x.Body.List {
+			clause := cc.(*ast.CaseClause)
+			var texts []string
+			for _, e := range clause.List {
+				if x.Tag == nil {
+					w.cond(e, g)
+				} else {
+					w.expr(e, g)
+				}
+				texts = append(texts, exprText(w.fset, e))
+			}
+			inner := append([]string{}, g...)
+			if x.Tag == nil && len(texts) > 0 {
+				inner = append(inner, strings.Join(texts, "||"))
+			}
+			for _, s := range clause.Body {
+				w.stmt(s, inner)
+			}
+			if x.Tag == nil && len(texts) > 0 {
+				g = append(g, "!("+strings.Join(texts, "||")+")")
+			}
+		}
+	case *ast.TypeSwitchStmt:
+		for _, cc := range x.Body.List {
+			for _, s := range cc.(*ast.CaseClause).Body {
+				w.stmt(s, guards)
+			}
+		}
+	case *ast.SelectStmt:
+		for _, cc := range x.Body.List {
+			for _, s := range cc.(*ast.CommClause).Body {
+				w.stmt(s, guards)
+			}
+		}
+	case *ast.ForStmt:
+		w.stmt(x.Init, guards)
+		if x.Cond != nil {
+			w.expr(x.Cond, guards)
+		}
+		w.stmt(x.Body, guards)
+	case *ast.RangeStmt:
+		w.stmt(x.Body, guards)
+	case *ast.LabeledStmt:
+		w.stmt(x.Stmt, guards)
+	default:
+		// assignments, expression statements, returns, go, defer ...: look inside their expressions
+		ast.Inspect(st, func(n ast.Node) bool {
+			if e, ok := n.(ast.Expr); ok {
+				w.expr(e, guards)
+				return false
+			}
+			return true
+		})
+	}
+}
+
 func opSites(c *c13Case, o *c13Obs) {
 	files := []string{"rpc/mock/handler.go", "rpc/http/handler.go", "rpc/socket/handler.go",
 		"rpc/udp/handler.go", "rpc/websocket/handler.go"}
@@ -692,36 +881,16 @@ func opSites(c *c13Case, o *c13Obs) {
 			if !ok || fd.Body == nil {
 				continue
 			}
-			var cmps []*ast.BinaryExpr
-			dispatch := token.NoPos
-			ast.Inspect(fd.Body, func(n ast.Node) bool {
-				switch x := n.(type) {
-				case *ast.BinaryExpr:
-					switch x.Op {
-					case token.GTR, token.GEQ, token.LSS, token.LEQ, token.EQL, token.NEQ:
-						l, r := exprText(fset, x.X), exprText(fset, x.Y)
-						if strings.Contains(l, "MaxRequestLength") || strings.Contains(r, "MaxRequestLength") {
-							cmps = append(cmps, x)
-						} else if f == "rpc/udp/handler.go" && ((l == "length" && r == "n-8") || (l == "n-8" && r == "length")) {
-							// the datagram consistency test: declared length against received bytes
-							cmps = append(cmps, x)
-						}
-					}
-				case *ast.CallExpr:
-					if sel, ok := x.Fun.(*ast.SelectorExpr); ok {
-						switch sel.Sel.Name {
-						case "Handle", "run", "task":
-							if dispatch == token.NoPos || x.Pos() < dispatch {
-								dispatch = x.Pos()
-							}
-						}
-					}
+			w := &siteWalker{fset: fset, file: f}
+			w.stmt(fd.Body, nil)
+			for k, x := range w.cmps {
+				x.Func = fd.Name.Name
+				x.Before = w.dispatch == token.NoPos || w.pos[k] < w.dispatch
+				x.Dispatch = w.dispatch != token.NoPos
+				if x.Guards == nil {
+					x.Guards = []string{}
 				}
-				return true
-			})
-			for _, x := range cmps {
-				o.Sites = append(o.Sites, site{File: f, Func: fd.Name.Name, Lhs: exprText(fset, x.X), Op: x.Op.String(),
-					Rhs: exprText(fset, x.Y), Before: dispatch == token.NoPos || x.Pos() < dispatch, Dispatch: dispatch != token.NoPos})
+				o.Sites = append(o.Sites, x)
 			}
 		}
 	}
